@@ -107,3 +107,10 @@ CLAIMS['C15'] = dict(
     note='a call counts as blocked forever only if every call in flight is parked in identical SDK frames for 5 s across >= 20 goroutine dumps; re-registration of a processor is not modelled; stock log components get cancelled contexts only under the tolerant contract; seven defects were repaired in /repo (2b20e86, c611340, 8f1b35e, ada0bc0, b340635, cbb61d5)',
     technique='TLA+ relational lifecycle model + lock-level concurrent spec, TLC edge replay on the three real providers (subprocess isolation) + TLC trace validation of concurrent scenarios',
 )
+
+CLAIMS['C18'] = dict(
+    text='PromModel.tla states the OTel->Prometheus rules over token classes (name escaping, unit suffix once, _total once and last, namespace, label sanitisation with deterministic collision merge, family cache with type-conflict drop and first-help-wins, target/scope info per options) and admits every answer where the statement leaves a choice (TLC proves each admitted naming alternative satisfies the name clauses); PromExport.tla explores instrument-name token sequences x units x kinds x option subsets x colliding attribute keys x 1-2 instruments x 2 scrapes and prints self-contained scrape edges. Each edge is executed on the real exporter (collector captured through a custom Registerer, Collect under recover, then a real Registry.Gather; one subprocess per validation scheme) and judged by TLC (Trace_PromExport.tla: names, labels, validity, values equal to the same exporter\'s Reader.Collect); seeded random instruments and concurrent scrape/record scenarios are validated the same way.',
+    ref='DESIGN.md §4 C18',
+    note='race freedom is an auxiliary -race run of the concurrent scenarios (both tiers), not model checking; scope attributes, exemplars, WithProducer are not modelled; five defects were repaired in /repo (cd08668, 3014c3f, bd6d39e, f4d6e42, 0acaf2b)',
+    technique='TLA+ naming/label/family model with admissible alternatives, TLC edge replay on the real Prometheus exporter + TLC trace validation',
+)
